@@ -1204,7 +1204,10 @@ func builtinIsTruthy(_ *lisp.LEnv, _ *lisp.LVal) *lisp.LVal {
 				return lisp.Nil()
 			}
 		case lisp.LSortMap, lisp.LBytes:
-			if len(input.Cells) > 0 {
+			// Neither type keeps its contents in Cells (a map is behind
+			// Map(), bytes behind Bytes()), so len(input.Cells) was always 0
+			// and every non-empty map or byte string was rejected.
+			if input.Len() > 0 {
 				return lisp.Nil()
 			}
 		case lisp.LString:
